@@ -7,7 +7,7 @@ import zz "github.com/ogen-go/ogen/internal/zzverif"
 
 var ZZEntries = map[string]func([]int){
 	"HSet":   func(a []int) { HSet(a[0], a[1]) },
-	"HBuild": func(a []int) { HBuild(a[0]) },
+	"HBuild": func(a []int) { HBuild(a[0], a[1]) },
 }
 
 func bit(b []uint8, i int) bool {
@@ -39,10 +39,15 @@ func HSet(n, i int) {
 	zz.Assert(bit(r, i) == zz.Or(bit(old, i), v), "Set makes bit i equal to old OR v")
 }
 
-func HBuild(n int) {
+// mode 0: every predicate symbolic; mode 1: only the byte-boundary positions
+func HBuild(n, mode int) {
 	s := make([]bool, n)
 	for i := range s {
-		s[i] = zz.Bool()
+		if mode == 0 || i == 0 || i%8 == 7 || i%8 == 0 || i == n-1 {
+			s[i] = zz.Bool()
+		} else {
+			s[i] = i%3 == 0
+		}
 	}
 	r := Build(s, func(_ int, b bool) bool { return b })
 	want := (n + 7) / 8
